@@ -56,6 +56,13 @@ def gen(rng, tier):
         if rng.random() < 0.3:
             # a file named without any directory part (relative to the working directory)
             cmds += [trees.fsfile(b"/plain.conf", b"k=1\n[s]\nj=2\n"), "readfile 4 %s x3d x23" % enc(b"plain.conf"), "dump 4"]
+        if rng.random() < 0.1:
+            # econf_readConfig creating the handle itself, and with a handle that names no directories: the default
+            # directories /usr/lib|/run|/etc + project are looked at (a project that exists nowhere): file-not-found,
+            # the created handle is released again, a given one stays with the caller
+            pr = enc(b"verif-absent-%d" % rng.randrange(10**6))
+            cmds += ["readconfig 8 %s %s %s %s x3d x23" % (pr, enc(b"/usr/lib"), enc(rng.choice([b"foo", b""])), enc(rng.choice([b"conf", b""]))), "dump 8",
+                     rng.choice(["newkf 9 61 35", "newini 9"]), "readconfig 9 %s - %s x636f6e66 x3d x23" % (pr, enc(b"foo")), "dump 9"]
         obs = [False] * (len(tree) + len(extra) + len(pre)) + [True] * (len(cmds) - len(tree) - len(extra) - len(pre))
         out.append(Scenario(cmds, obs, tags=(inj,)))
     return out
